@@ -150,8 +150,10 @@ class C10(Check):
                     r = np.array(f(t_arg, y.copy(), *a), copy=True).reshape(-1)
                 except Exception as e:
                     if pi == 0:
-                        V('L-call', 'loud', type(e).__name__, f'f(t={t_arg}, y, hist, ...) raised {type(e).__name__}: {str(e)[:160]} '
-                                                              f'(vectorize={cfg["vectorize"]}, adaptive={adaptive})')
+                        # refused at its very first evaluation: a loud refusal of the model, not a wrong past value
+                        res['discard'] = f'model refused at first evaluation: {type(e).__name__}: {str(e)[:60]}'
+                        res['probes']['dde_rejected'] = 1
+                        return res
                     else:
                         V('L-call', 'loud', type(e).__name__, f'probe {pi}: raised {type(e).__name__}: {str(e)[:160]}')
                     return res
@@ -186,6 +188,9 @@ class C10(Check):
             return res
 
         # =========================================================================== (b) run level
+        if not has_delay:
+            res['discard'] = 'no delayed term in this sample'
+            return res
         import pyrates.backend.base.base_backend as bb
         from sim.spies import Recorder
         RealHist = bb.DDEHistory
@@ -208,7 +213,7 @@ class C10(Check):
             R = c.run(T, dt, outputs=outputs, solver=cfg['solver'], vectorize=cfg['vectorize'], float_precision='float64',
                       decorator=rec, verbose=False)
         except Exception as e:
-            if rec.calls <= 1:
+            if not rec.events:
                 res['discard'] = f'model refused: {type(e).__name__}: {str(e)[:80]}'
                 res['probes']['dde_rejected'] = 1
                 return res
@@ -376,15 +381,20 @@ class C10(Check):
             yield t2
 
     def known(self):
-        def edges_vec(trace, v):
+        def vec_tau(trace, v):
+            if not trace['cfg']['vectorize'] or v['law'] not in ('L-comp', 'L-query', 'L-traj'):
+                return False
             net = models.RefNet(trace['spec'])
-            return trace['cfg']['vectorize'] and any(a.get('delay') for _, _, a in net.edges) and \
-                trace['cfg']['level'] == 'func' and v['law'] in ('L-comp', 'L-call', 'L-query')
+            by_op = {}
+            for (n, o), i in net.inst.items():
+                if i['lib'] in ('dd', 'ddt'):
+                    by_op.setdefault(o, set()).add(i['p']['tau'])
+            return any(len(t) > 1 for t in by_op.values())
 
         def ab_vec(t):
             t['cfg']['vectorize'] = False
             return t
-        return [KF('KF-C10-vectorized-dde-edges', edges_vec, ab_vec)]
+        return [KF('KF-C10-vectorized-tau-first-element', vec_tau, ab_vec)]
 
 
 CHECK = C10()
